@@ -91,7 +91,26 @@ pub fn check<I: Inputs>(vt: &'static Vt<I>, ctx: &Ctx) -> DeclReport {
             let raw = raw_fn();
             let expected = no_panic(|| (vt.ctor)(raw.clone()));
             let model_expected = model::construct(m, raw.clone());
-            let got = no_panic(df);
+            // `Default` is called repeatedly: every call, not only the first, has to agree with the constructor
+            let mut got = no_panic(df);
+            for _ in 0..3 {
+                let again = no_panic(df);
+                let same = match (&got, &again) {
+                    (Ok(a), Ok(b)) => a.same(b),
+                    (Err(_), Err(_)) => true,
+                    _ => false,
+                };
+                rep.evaluations += 1;
+                if !same {
+                    rep.class("default-call-history-differs");
+                    // keep the call that disagrees with the constructor, if any
+                    let first_ok = matches!((&expected, &got), (Ok(Ok(e)), Ok(g)) if e.same(g)) || matches!((&expected, &got), (Ok(Err(_)), Err(_)));
+                    if first_ok {
+                        got = again;
+                    }
+                    break;
+                }
+            }
             rep.evaluations += 1;
             rep.nontrivial += 1;
             let class = if model_expected.is_ok() { "default-valid" } else { "default-invalid" };
@@ -121,6 +140,46 @@ pub fn check<I: Inputs>(vt: &'static Vt<I>, ctx: &Ctx) -> DeclReport {
                     0,
                     &mut wts,
                 );
+            }
+        }
+    }
+    // generic declarations: Default at two instantiations, interleaved
+    if ctx.case.is_none() || ctx.case.as_ref().and_then(|c| c.get("default_history")).is_some() {
+        if let Some(h) = vt.default_history {
+            let hist = h();
+            let mut prefix: Vec<String> = vec![];
+            for (label, ctor_ok, got) in &hist {
+                prefix.push(label.clone());
+                rep.evaluations += 1;
+                rep.nontrivial += 1;
+                let class = if *ctor_ok { "default-history-valid-step" } else { "default-history-invalid-step" };
+                rep.class(class);
+                rep.sample(class, json!({"case": {"default_history": prefix}, "constructor_accepts": ctor_ok, "default_result": format!("{got:?}")}));
+                let bad = match (ctor_ok, got) {
+                    (true, Some(true)) | (false, None) => None,
+                    (true, Some(false)) => Some(("differs-from-constructor", "constructor result", "another value")),
+                    (true, None) => Some(("panics-on-valid-default", "constructor result", "panic")),
+                    (false, Some(_)) => Some(("returns-rejected-value", "panic (constructor rejects)", "a value")),
+                };
+                if let Some((w, e, a)) = bad {
+                    let mut wts = Default::default();
+                    rep.viol(
+                        Viol {
+                            prop: "C03".into(),
+                            decl_id: vt.id.into(),
+                            type_name: vt.type_name.into(),
+                            decl: vt.decl.into(),
+                            signature: sig("Default-history", w),
+                            case: json!({"default_history": prefix}),
+                            expected: e.into(),
+                            actual: format!("{a} at instantiation {label} after {:?}", &prefix[..prefix.len() - 1]),
+                            shrunk: "none".into(),
+                        },
+                        0,
+                        &mut wts,
+                    );
+                    break;
+                }
             }
         }
     }
